@@ -6,14 +6,14 @@ import random
 ID = "C08"
 LEVEL = "exploration"
 TECHNIQUE = "runtime monitoring on a virtual-time simulated network: raw observers (CON and NON registrations) reacting with ACK / Reset / silence / re-registration / deregistration / unrelated request / ICMP error to bursts of state-change triggers; the test resource stamps registration id and state version into every rendering and counts cancellation callbacks; offline oracle over wire log + resource log"
-LEVEL_TEXT = "Each generated history (1-3 observers, 2-10 triggers incl. unsuccessful / last ones, every observer reaction kind, shutdown at the end) is judged per registration: token and strictly rising Observe values, bounded 'latest state sent', the ending instant derived from the listed causes, no notification first transmitted after it, exactly one cancellation callback, observer count back to its previous value."
+LEVEL_TEXT = "Each generated history (1-3 observers, 2-10 triggers incl. unsuccessful / last ones, every observer reaction kind, shutdown at the end; in two histories out of five the resource mixes confirmable and non-confirmable notifications within a registration) is judged per registration: token and strictly rising Observe values, bounded 'latest state sent', the ending instant derived from the listed causes, no notification first transmitted after it, exactly one cancellation callback, observer count back to its previous value."
 LEVEL_NOTE = "Trusted: the judge in checks/c08.py, simnet (log order and synchronous-cause attribution), refcodec. 'Eventually' is decided as 'by the end of the run or the registration's end'. Byte-identical retransmissions of a notification first sent before the end are not judged here (C03)."
 RULE = (
     "one case = one history: observers (CON/NON registration, per-notification reaction script), trigger schedule (gap classes), special events (unsuccessful / last trigger, re-registration, deregistration, unrelated request on the token, ICMP error). "
     "Non-trivial = at least one registration ended by a cause other than shutdown, or triggers overlapped an unacknowledged notification; distinct = distinct tuples of (registration type, reaction script, special event, trigger gap classes)"
 )
 ASSUMPTIONS = ["default TransportTuning", "the test resource derives from aiocoap.resource.ObservableResource and wraps the cancellation callback it hands to accept()"]
-REQUIRED_MONITORS = {"explicit_final_during_render": 20, "token_and_rising_observe": 300, "latest_state": 60, "end_cause": 300, "nothing_after_end": 300, "callback_once": 300, "count_returns": 200}
+REQUIRED_MONITORS = {"explicit_final_during_render": 20, "token_and_rising_observe": 300, "latest_state": 60, "end_cause": 300, "nothing_after_end": 300, "callback_once": 300, "count_returns": 200, "mixed_reliability_notification": 300}
 
 KNOWN_KEYS = ("rst-to-non-notification-ignored", "queued-notification-sent-after-end")
 
@@ -83,7 +83,10 @@ def gen(r):
         late = r.choice(slow)
         late["t_reg"] = shutdown_at - 0.7  # the context shuts down while this first rendering is under way
         late["special"] = None
-    return {"observers": observers, "triggers": triggers, "shutdown_at": shutdown_at, "render_delay": render_delay, "late_special": late_special}
+    # the resource mixes reliability within a registration (RFC 7641 4.5: mostly non-confirmable, a confirmable one now
+    # and then), whatever the type of the registering request was
+    rel = r.choice([None, None, None, "mixed-3", "mixed-2"])
+    return {"observers": observers, "triggers": triggers, "shutdown_at": shutdown_at, "render_delay": render_delay, "late_special": late_special, "rel": rel}
 
 
 def run_history(h, seed, rep, case):
@@ -152,7 +155,12 @@ def run_history(h, seed, rep, case):
                         raise aiocoap.error.NotFound("first rendering failed")
                 if h.get("render_delay"):
                     await asyncio.sleep(h["render_delay"])  # ... then the handler takes its time
-                return aiocoap.Message(payload=b"rid=%d;ver=%d" % (rid, ver))
+                m = aiocoap.Message(payload=b"rid=%d;ver=%d" % (rid, ver))
+                if h.get("rel"):
+                    k = int(h["rel"].split("-")[1])
+                    m.transport_tuning = aiocoap.Reliable() if ver % k == 0 else aiocoap.Unreliable()
+                    rep.monitor("mixed_reliability_notification")
+                return m
 
         res_ = Obs()
         site = R.Site()
